@@ -28,6 +28,14 @@
 #include <cstring>
 #include <cassert>
 
+/* a decimal stored in an integer element must fit in an integer */
+static bloc::Integer toIntegerElement(bloc::Numeric d)
+{
+  if (!(d >= -9223372036854775808.0 && d < 9223372036854775808.0))
+    throw bloc::RuntimeError(bloc::EXC_RT_OUT_OF_RANGE);
+  return (bloc::Integer)d;
+}
+
 namespace bloc
 {
 
@@ -59,7 +67,7 @@ Value& MemberSETExpression::value(Context& ctx) const
       case Type::INTEGER:
         if (a0.type() == Type::NUMERIC)
         {
-          rv->at(_index).swap(a0.isNull() ? Value(Value::type_integer) : Value(Integer(*a0.numeric())));
+          rv->at(_index).swap(a0.isNull() ? Value(Value::type_integer) : Value(toIntegerElement(*a0.numeric())));
           return val;
         }
         else if (a0.type() == Type::NO_TYPE)
